@@ -16,6 +16,7 @@ import os
 import re
 import shutil
 import time
+import zlib
 
 import vlib
 
@@ -501,7 +502,7 @@ def confirm_with_tool(work, cands, chk, stats, skip, timeouts):
         mine = [(n, tag) for n, p, i, tag in cands if n in {x[0] for x in probes} and (n, tag) not in status]
         if to <= 0:
             for k in mine:
-                status[k] = "unrun:%s std imports are not analysed in this tier" % gname
+                status[k] = "unrun:programs with %s std imports are not run through the taint analysis (does not terminate in practical time/memory)" % gname
             continue
         rc, out = vlib.sh([os.path.join(vlib.BIN, "c10taint"), d], timeout=to)
         srcline = {}
@@ -570,7 +571,7 @@ def run(chk):
         impl_in = set(tuple(x) for x in e["impl_in"])
         if w:
             distinct.add((json.dumps(e["args"]), json.dumps(e["rets"]), e["nparams"], e["nresults"]))
-        if len(chk.cov["samples"]) < 5 and len(w) >= 4 and e["nparams"] >= 2 and hash(e["name"]) % 11 == chk.seed % 11:
+        if len(chk.cov["samples"]) < 5 and len(w) >= 4 and e["nparams"] >= 2 and zlib.crc32(e["name"].encode()) % 11 == chk.seed % 11:
             chk.sample({"entry": e["name"], "sig": e["sig"], "Args": e["args"], "Rets": e["rets"], "nparams": e["nparams"],
                         "ret_node_tuples": e["ret_lens"], "graph_built_by_real_loader": sorted(edge_str(x) for x in impl)})
         dropped = w - impl
@@ -670,7 +671,9 @@ def run(chk):
             skip = {(pn, tag) for pn, p, i, tag in cands
                     if ("missing-flow:%s:%d->%s" % (p["e"]["name"], i, tag)) in known_keys or known.get(p["e"]["name"]) == "nonconforming"
                     or ("%s:%d->%s" % (p["e"]["name"], i, tag)) in doubtful}
-        timeouts = {"light": 600, "medium": 900, "heavy": 300} if tier == "quick" else {"light": 900, "medium": 1800, "heavy": 1500}
+        # heavy (net/http, crypto/tls, ...): the taint analysis of such a program did not finish in 55 min and grew to 25 GB
+        # on this machine, so it is never run; such candidates stay in evidence as unconfirmed
+        timeouts = {"light": 600, "medium": 900, "heavy": 0} if tier == "quick" else {"light": 900, "medium": 1800, "heavy": 0}
         status = confirm_with_tool(work, cands, chk, stats, skip, timeouts)
         stats["confirmation"] = {}
         for pn, p, i, tag in cands:
@@ -733,8 +736,8 @@ def run(chk):
                         "semantic half is a search: an explicit flow is only observed when the marker survives verbatim (case-insensitively) in a value "
                         "reachable by reflection from a result / another argument; entries with unsynthesizable or side-effecting "
                         "parameters are not probed (%d of %d resolved entries are synthesizable)" % (stats["synthesizable_entries"], stats["resolved"]),
-                        "gen_std output is cached under build/cache keyed by sha256(gentables binary built from the current tree, toolchain, "
-                        "summaries sources, exception file)"]
+                        "gen_std output is cached under build/cache keyed by sha256(all non-test Go sources of /repo/analysis and /repo/internal, "
+                        "go.mod, the generator's sources, toolchain version, exception names)"]
     return chk.finish()
 
 
